@@ -1362,6 +1362,17 @@ def c19(ctx):
     dense = [n for n, (e, o) in FS_EXPR.items() if o == 'iopt' and e[0] in ('con', 'cols')]
     fcases = gen_fs_cases(ctx, dense, 30 if not ctx.thorough else 300, 40, observe_each=False)
     # no clear/from_iter needed to stay dense, but they are allowed: indices restart at 0
+    # deterministic: stacks that held only EMPTY items before a clear (every inner offset is 0), then grow again
+    for name in dense:
+        e, o = FS_EXPR[name]
+        if coded(e): continue
+        vg = gen.ValueGen(ctx.rng, big=False); sh = shape(e)
+        for k in (1, 2, 5):
+            for how in ('copy', 'extend'):
+                pre = [('copy', [])] * k if how == 'copy' else [('extend', [[]] * k)]
+                ops = pre + [('observe',), ('clear',), ('observe',)] + [('copy', vg.gen(sh)) for _ in range(4)] + [('copy', []), ('observe',), ('clear',),
+                       ('copy', []), ('copy', vg.gen(sh)), ('observe',)]
+                fcases.append((name, ops))
     note_fs(res, fcases)
     run_fs_cases(ctx, res, fcases, index_free_names=set(dense))
     return res
@@ -1501,8 +1512,10 @@ def c17(ctx):
     n = 15 if not ctx.thorough else 300
     ref_form = lambda e: 1 if catalogue.ref_ok(e) else 0
     for name, e in pick_entries(VEC_BACKED):
-        for _ in range(n):
+        for it in range(n):
             hg = HistGen(ctx, name, e); f = ref_form(e)
+            # (thorough: 4k-element items in one history out of ten; in all of them one model process grew to 24 GB)
+            hg.vg.big = ctx.thorough and it % 10 == 0
             pre = [('push', 0, f, hg.value()) for _ in range(ctx.rng.choice([0, 0, 3, 20]))]
             batch = [hg.value(repeat=0.2) for _ in range(ctx.rng.choice([1, 5, 30, 60]))]
             kind = ctx.rng.choice(['items', 'regions', 'merge'])
@@ -1558,8 +1571,8 @@ def c17(ctx):
             f = oracle(e, ops, io, mo)
             if f:
                 res.failures.append({'kind': 'oracle', 'entry': name, 'rust_type': catalogue.rust_type(e), 'profile': prof,
-                                     'history': [op_str(o) for o in ops][:200], 'what': f,
-                                     'observed': [' '.join(g) for g in io][:200], 'known': None})
+                                     'history': [op_str(o) for o in ops], 'what': f,
+                                     'observed': [' '.join(g) for g in io], 'known': None})
             res.compared += 1
             pi, pm = project(ops, io, 'values'), project(ops, mo, 'values')
             bad = None
@@ -1576,8 +1589,11 @@ def c17(ctx):
                             # this is also a concrete failing input for the property
                             break
             if bad:
-                bad.update({'entry': name, 'profile': prof, 'history': [op_str(o) for o in ops][:200],
-                            'impl': [' '.join(g) for g in io][:200], 'model': [' '.join(g) for g in mo][:200]})
+                t = bad['first_difference_at_op']
+                bad.update({'entry': name, 'profile': prof, 'history': [op_str(o) for o in ops],
+                            'window': {'ops': [op_str(o) for o in ops][max(0, t - 2):t + 3], 'impl': [' '.join(g) for g in io][max(0, t - 2):t + 3],
+                                       'model': [' '.join(g) for g in mo][max(0, t - 2):t + 3]},
+                            'impl': [' '.join(g) for g in io], 'model': [' '.join(g) for g in mo]})
                 res.corr.append(bad)
         res.per_profile[prof] = res.per_profile.get(prof, 0) + len(cases)
     res.assumptions.append('the allocator and RawVec growth policy are std\'s, tied only by observation; std\'s Vec contract enters the theorems as Section hypotheses')
